@@ -52,6 +52,33 @@ impl<const N: usize> SymStr<N> {
 		}
 		SymStr { bytes, len }
 	}
+	/// The `shape`-th string of length `len` over the byte classes `classes` + "any other byte":
+	/// digit i of `shape` in base `classes.len() + 1` selects the class of byte i; digit 0 is a
+	/// fresh symbolic byte that is none of `classes`. For a concrete `shape` every comparison of the
+	/// code under test against one of `classes` is decided during symbolic execution, so control flow
+	/// is concrete while the "other" bytes stay universally quantified. Running all
+	/// `(classes.len() + 1) ^ len` shapes covers every ASCII string of that length exactly once.
+	pub fn shaped(shape: usize, len: usize, classes: &[u8]) -> SymStr<N> {
+		let mut bytes = [b'?'; N];
+		let base = classes.len() + 1;
+		let mut rest = shape;
+		let mut i = 0;
+		while i < len {
+			let d = rest % base;
+			rest /= base;
+			if d == 0 {
+				let b = sym::u8();
+				sym::assume(b >= 1 && b < 0x80);
+				let mut k = 0;
+				while k < classes.len() { sym::assume(b != classes[k]); k += 1; }
+				bytes[i] = b;
+			} else {
+				bytes[i] = classes[d - 1];
+			}
+			i += 1;
+		}
+		SymStr { bytes, len }
+	}
 	#[inline(always)]
 	pub fn slice(&self) -> &[u8] { &self.bytes[..self.len] }
 	#[inline(always)]
@@ -61,6 +88,8 @@ impl<const N: usize> SymStr<N> {
 	}
 	pub fn java_string(&self) -> JavaString { self.java().to_owned() }
 }
+
+pub const fn pow(base: usize, exp: usize) -> usize { let mut r = 1; let mut i = 0; while i < exp { r *= base; i += 1; } r }
 
 /// Bytewise equality without `memcmp` (keeps the unwinding bound small and explicit).
 #[inline]
